@@ -88,7 +88,7 @@ CLAIMED["C17"] = (
     "(orders included, defaults compared as coerced values) and carries every description and deprecation "
     "reason of the generating model character for character.",
     "Models are valid by construction (checked as a precondition); deprecated directive definitions are "
-    "not generated (their SDL needs the experimental parser flag).",
+    "generated in a tenth of the cases and rebuilt with the experimental parser flag their SDL needs.",
     "DESIGN.md 3/C17",
 )
 CLAIMED["C20"] = (
